@@ -78,6 +78,33 @@ def r1_who(report, repo):
                    'Outcome.PASS passed to _finalize only in finalize_normally',
                    'Outcome.PASS produced outside finalize_normally (%s)' % owner)
   report.expect_instances(rule, n, 8, '_finalize call sites')
+  # the three finalisers are invoked only by the executor's teardown ladder
+  nf = 0
+  for name in ('finalize_normally', 'finalize_from_phase_outcome'):
+    for m, c in core.call_sites(repo, attr=name):
+      if m.relpath == 'openhtf/util/test.py':
+        continue
+      nf += 1
+      owner = core.owner_qualname(c)
+      report.check(
+          m.relpath == TE and owner == 'TestExecutor._execute_test_teardown',
+          rule, owner, c, c,
+          '%s called only from TestExecutor._execute_test_teardown' % name,
+          '%s is called from %s: a second finalisation path bypasses the '
+          'ladder (abort / recorded terminal outcome / normal aggregation) and '
+          'can finalise a failed executor as PASS' % (name, owner))
+  for m, c in core.call_sites(repo, attr='abort'):
+    d = dotted(c.func.value) if isinstance(c.func, ast.Attribute) else ''
+    if d and ends_with(d, 'test_state') or ends_with(d or '', 'running_test_state'):
+      nf += 1
+      owner = core.owner_qualname(c)
+      report.check(
+          m.relpath == TE and owner == 'TestExecutor._execute_test_teardown',
+          rule, owner, c, c,
+          'TestState.abort called only from _execute_test_teardown',
+          'TestState.abort() is called from %s, outside the teardown ladder' %
+          owner)
+  report.expect_instances(rule, nf, 3, 'finaliser call sites')
   # writers of <...>.test_record.outcome or of a test-level Outcome value
   nw = 0
   for m, stmt, kind, tgt in core.attr_write_sites(repo, 'outcome'):
@@ -698,3 +725,6 @@ def run(report, repo):
   r7_last_record(report, repo)
   r8_execute_returns_pass(report, repo)
   r9_name_guard(report, repo)
+  # an invalid phase return value must become ERROR (shared with C05-R5)
+  from sa.rules import c05  # pylint: disable=g-import-not-at-top
+  c05.r5_thread_proc(report, repo, rule='C01-R10')
